@@ -1,5 +1,158 @@
-"""Native sanitizer legs of C05 (emitted C under ASan+UBSan; LLVM JIT under valgrind)."""
+"""Native sanitizer legs of C05: emitted C under gcc ASan+UBSan (generated driver, one process per
+case) and the LLVM JIT path under valgrind memcheck."""
+
+from __future__ import annotations
+
+import json
+import os
+import random
+import re
+import subprocess
+import sys
+
+from .. import cdrv, engine, gen, irvm, native, sweep, taco
+from ..common import ROOT, rm_tree, work_dir
+
+PLAN = {
+    "quick": dict(asan_cases=160, batch=28, valgrind_cases=60),
+    "thorough": dict(asan_cases=2400, batch=60, valgrind_cases=1500),
+}
+
+
+def pick_cases(rng, n, capacities=(1, 2, 3, 5, 16)):
+    """Cases with a kernel whose abstract-machine run is clean (violations are C05's irvm leg)."""
+    out = []
+    tries = 0
+    while len(out) < n and tries < n * 8:
+        tries += 1
+        if tries % 3 == 0:
+            target, tree = gen.random_assignment(rng, allow_broadcast_target=False)
+        else:
+            target, tree = gen.parse(rng.choice(gen.CURATED))
+        case = engine.build_case(rng, target, tree, None, capacity=rng.choice(capacities), origin="native")
+        k = sweep.observe_kinds(case)
+        if k.status != "ran" or any(o is None or o.violation is not None or o.malformed is not None for o in (k.evaluate, k.assemble, k.compute)):
+            continue
+        out.append((case, k))
+    return out
+
+
+class Valgrind:
+    def __init__(self, run, tier, wd, cases):
+        self.run = run
+        self.wd = wd
+        self.n = len(cases)
+        self.procs = []
+        chunk = max(1, (len(cases) + 5) // 6) if tier == "quick" else max(1, (len(cases) + 11) // 12)
+        for k in range(0, len(cases), chunk):
+            sp = os.path.join(wd, f"vg{k}.json")
+            op = os.path.join(wd, f"vgout{k}.json")
+            xml = os.path.join(wd, f"vg{k}.xml")
+            json.dump({"cases": [c.describe() for c, _ in cases[k : k + chunk]]}, open(sp, "w"))
+            env = dict(os.environ)
+            env.update({"PYTHONMALLOC": "malloc", "PYTHONHASHSEED": "0", "PYTHONPATH": ROOT + os.pathsep + env.get("PYTHONPATH", "")})
+            cmd = ["valgrind", "--tool=memcheck", "--error-exitcode=97", "--leak-check=no", "--undef-value-errors=yes", "--xml=yes",
+                   f"--xml-file={xml}", "--child-silent-after-fork=yes", "-q", sys.executable, os.path.join(ROOT, "verif", "vg_child.py"), sp, op]
+            p = subprocess.Popen(cmd, env=env, stdout=subprocess.PIPE, stderr=subprocess.STDOUT, cwd=wd)
+            self.procs.append((p, op, xml, k))
+
+    def finish(self, timeout):
+        run = self.run
+        for p, op, xml, k in self.procs:
+            try:
+                out, _ = p.communicate(timeout=timeout)
+            except subprocess.TimeoutExpired:
+                p.kill()
+                run.inconclusive_because("valgrind batch hit the wall-clock watchdog")
+                continue
+            errors = []
+            if os.path.exists(xml):
+                text = open(xml, errors="replace").read()
+                for m in re.finditer(r"<error>.*?</error>", text, re.S):
+                    blk = m.group(0)
+                    kind = re.search(r"<kind>(.*?)</kind>", blk)
+                    what = re.search(r"<what>(.*?)</what>", blk) or re.search(r"<text>(.*?)</text>", blk)
+                    frames = re.findall(r"<fn>(.*?)</fn>", blk)[:6]
+                    objs = re.findall(r"<obj>(.*?)</obj>", blk)[:6]
+                    if kind and kind.group(1).startswith("Leak_"):
+                        continue  # leaks are C13's subject; CPython itself "leaks" at exit
+                    errors.append({"kind": kind.group(1) if kind else "?", "what": what.group(1) if what else "", "frames": frames, "objects": objs})
+            if os.path.exists(op):
+                r = json.load(open(op))
+                run.count("valgrind_jit_kernel_runs", r["ran"])
+                run.evaluated(r["ran"])
+                for m in r["malformed"]:
+                    run.violation("jit-output-malformed-under-valgrind", m)
+            elif p.returncode not in (0, 97):
+                tail = out.decode(errors="replace")[-400:]
+                if p.returncode < 0:
+                    run.violation("process-died-under-valgrind", {"signal": -p.returncode, "tail": tail})
+                else:
+                    run.inconclusive_because(f"valgrind batch failed ({p.returncode}): {tail}")
+            run.count("valgrind_error_reports", len(errors))
+            for e in errors:
+                # errors whose stack has no symbolised frame in a shared object come from JIT-compiled code
+                run.violation(f"valgrind:{e['kind']}", e)
 
 
 def run_native(run, tier):
-    run.counters["native_legs"] = "not built yet"
+    plan = PLAN[tier]
+    rng = random.Random(f"C05-native-{run.seed}")
+    wd = work_dir("c05n")
+    try:
+        picked = pick_cases(rng, plan["asan_cases"])
+        vg = None
+        if plan["valgrind_cases"]:
+            vg = Valgrind(run, tier, wd, picked[: plan["valgrind_cases"]])
+        from tensora.codegen import ir_to_c
+
+        items = []
+        for case, k in picked:
+            spec = native.tensor_specs(case, k.problem)
+            code = ir_to_c(k.module)
+            items.append((case, cdrv.NativeCase(code, spec, ["evaluate"])))
+            spec2 = native.tensor_specs(case, k.problem)
+            items.append((case, cdrv.NativeCase(code, spec2, ["assemble", "compute"])))
+        b = plan["batch"]
+        from concurrent.futures import ThreadPoolExecutor
+
+        def do_chunk(i):
+            chunk = items[i : i + b]
+            exe, err = cdrv.build_binary([c for _, c in chunk], wd, f"asan{i}", "asan")
+            if exe is None:
+                return [("build-failed", err, None, None)]
+            res = []
+            for j, (case, nc) in enumerate(chunk):
+                st, dump, errtail = cdrv.run_case(exe, j)
+                res.append((st, dump, errtail, (case, nc)))
+            return res
+
+        with ThreadPoolExecutor(max_workers=12) as pool:
+            results = list(pool.map(do_chunk, range(0, len(items), b)))
+        for res in results:
+            if res and res[0][0] == "build-failed":
+                run.inconclusive_because(f"ASan driver did not compile: {res[0][1][-300:]}")
+                continue
+            run.count("asan_binaries")
+            for st, dump, errtail, (case, nc) in res:
+                run.evaluated()
+                run.count("asan_ubsan_kernel_runs", len(nc.calls))
+                if st == "timeout":
+                    run.inconclusive_because("an ASan case hit the wall-clock watchdog")
+                elif st != "ok":
+                    m = re.search(r"(AddressSanitizer|UndefinedBehaviorSanitizer|runtime error): ?([a-zA-Z0-9 _-]+)", errtail)
+                    run.violation(f"emitted-c:{st}:{m.group(2).strip()[:40] if m else ''}", {"calls": nc.calls, "case": case.describe(), "stderr": errtail[-800:]})
+                else:
+                    if any(c["inputs_unchanged"] is False for c in dump):
+                        run.violation("emitted-c:input-modified", {"calls": nc.calls, "case": case.describe()})
+                    if any(c["ret"] != 0 for c in dump):
+                        run.violation("emitted-c:nonzero-return", {"calls": nc.calls, "case": case.describe()})
+                    run.nontrivial(hash((case.key(), tuple(nc.calls), "asan")))
+        if vg is not None:
+            vg.finish(1500 if tier == "quick" else 6 * 3600)
+        if run.counters.get("asan_ubsan_kernel_runs", 0) < 100:
+            run.inconclusive_because("the ASan+UBSan leg observed too few kernel runs")
+        if plan["valgrind_cases"] and run.counters.get("valgrind_jit_kernel_runs", 0) < 30:
+            run.inconclusive_because("the valgrind leg observed too few kernel runs")
+    finally:
+        rm_tree(wd)
